@@ -61,7 +61,7 @@ func (ts *c12Targets) target(cc *verifx.C12Conc, c *verifx.C12Case) (*Target, st
 		dst, src = "tcp://127.0.0.1:9", ":4242"
 	}
 	cmd := "route add c12svc " + src + " " + dst
-	if o := cc.Opts(c.Allow, c.Deny, c.Scheme); o != "" {
+	if o := cc.CaseOpts(c, true); o != "" {
 		cmd += ` opts "` + o + `"`
 	}
 	var tbl Table
@@ -108,7 +108,7 @@ func TestVerifC12Route(t *testing.T) {
 	}
 	targets := &c12Targets{m: map[string]*Target{}}
 	noReferee := os.Getenv("VERIF_C12_NOREFEREE") == "1"
-	var ran, accessEv, authEv, nontrivial, oracle int64
+	var ran, accessEv, authEv, nontrivial, oracle, rejectedRoutes int64
 	var sampleMu sync.Mutex
 	var samples []string
 
@@ -130,6 +130,10 @@ func TestVerifC12Route(t *testing.T) {
 				continue
 			}
 			tgt, cmd, err := targets.target(cc, c)
+			if err != nil && !verifx.C12OtherValid[c.Other] {
+				atomic.AddInt64(&rejectedRoutes, 1) // a target with a malformed other option may be refused as a whole
+				continue
+			}
 			if err != nil {
 				cc2 := *c
 				cc2.Conc = cc.Name
@@ -209,7 +213,7 @@ func TestVerifC12Route(t *testing.T) {
 		if n%4999 == 11 {
 			sampleMu.Lock()
 			if len(samples) < 4 {
-				samples = append(samples, fmt.Sprintf("opts %q peer %s xff %s -> may=%v must=%v", verifx.C12Lab.Opts(c.Allow, c.Deny, c.Scheme),
+				samples = append(samples, fmt.Sprintf("opts %q peer %s xff %s -> may=%v must=%v", verifx.C12Lab.CaseOpts(c, true),
 					verifx.C12Lab.Addr[c.Peer], c.ChainText(verifx.C12Lab), c.May, c.Must))
 			}
 			sampleMu.Unlock()
@@ -248,14 +252,14 @@ func TestVerifC12Route(t *testing.T) {
 		t.Fatal(err)
 	}
 	verifx.Summary(map[string]any{"cases": n, "ran": ran, "access_evaluations": accessEv, "auth_evaluations": authEv,
-		"distinct_nontrivial": nontrivial, "oracle_disagreements": oracle, "samples": samples})
+		"distinct_nontrivial": nontrivial, "oracle_disagreements": oracle, "routes_refused_for_malformed_other_option": rejectedRoutes, "samples": samples})
 }
 
 func c12Judge(c *verifx.C12Case, cc *verifx.C12Conc, sub, style string, decide func(style string, strip, noFill bool) (bool, any, string)) {
 	denied, p, stack := decide(style, false, false)
 	cc2 := *c
 	cc2.Conc, cc2.XffStyle = cc.Name, style
-	desc := fmt.Sprintf("opts %q, peer %s, X-Forwarded-For %s (%s)", cc.Opts(c.Allow, c.Deny, ""), cc.Addr[c.Peer], c.ChainText(cc), style)
+	desc := fmt.Sprintf("opts %q, peer %s, X-Forwarded-For %s (%s)", cc.CaseOpts(c, false), cc.Addr[c.Peer], c.ChainText(cc), style)
 	switch {
 	case p != nil:
 		verifx.Fail(cc2, c.Features(sub, "panic", "rules:"+c.CfgClass()), "%s: panic: %v\n%s", desc, p, stack)
